@@ -194,6 +194,7 @@ func zzC02(mode int, keys []string, pessimistic bool) {
 	}
 	// the dead client's locks are considered expired from now on
 	cl.lockExpired = true
+	cl.holdSecondaryChecks = true
 	sc.s.orc.expired = true
 	sc.peer = zzNewPeer(sc.s)
 	defer sc.peer.close()
